@@ -117,3 +117,45 @@ def abstract_int_text():
             return _orig(obj, *a, **kw)
 
         _PATCH_REGISTRATIONS[builtin] = patched
+
+
+def observe(r):
+    """(call under tracing) the memoised views of a result: len(r) and r.s"""
+    return len(r), r.s
+
+
+def views_term(obs, res, Pz, explen):
+    """(call under NoTracing) z3: len(r) == explen and r.s has that length and the same
+    characters as the runs (res = flat_at(r, Pz))"""
+    ln, s = obs
+    t = zint(ln) == explen
+    if isinstance(s, SegStr):
+        a, b = s.atom_at(Pz)
+        t = z3.And(t, s._zlen() == explen, z3.Implies(z3.And(Pz >= 0, Pz < explen), z3.And(a == res[0], b == res[1])))
+    elif isinstance(s, str) and type(s) is str:
+        lit = SegStr.literal(s)
+        a, b = lit.atom_at(Pz)
+        t = z3.And(t, explen == len(s), z3.Implies(z3.And(Pz >= 0, Pz < explen), z3.And(a == res[0], b == res[1])))
+    else:
+        t = z3.BoolVal(False)
+    return t
+
+
+# ---- native (per-character symbolic) strings: oracle helpers --------------------------
+def sym_cells(f):
+    """[(char, att id)] of a FmtStr whose run texts are native CrossHair strings (call under tracing)"""
+    out = []
+    for ch in f.chunks:
+        a = att_id(ch.atts)
+        for c in ch.s:
+            out.append((c, a))
+    return out
+
+
+def cells_equal(xs, ys):
+    if len(xs) != len(ys):
+        return False
+    for (c1, a1), (c2, a2) in zip(xs, ys):
+        if a1 != a2 or c1 != c2:
+            return False
+    return True
